@@ -24,7 +24,10 @@ RULE = ("case = stream(s) with the 48-bit block-header pattern planted (a) insid
 
 EMPTY = b"BZh9" + bytes.fromhex("177245385090") + b"\0\0\0\0"
 KINDS = [("junk", 60), ("junk", 200), ("hdr_error", 0), ("valid_run", 100), ("valid_run", 2000), ("valid_run", 200000),
-         ("valid_run", 899995), ("magic-alphabet", 0)]
+         ("valid_run", 899995), ("magic-alphabet", 0),
+         # bzgen symbol-level blocks: the pattern planted INSIDE the prefix-coded data of a block, followed by 32 bits,
+         # by junk, or by a complete nested block (bit string parsed into code words of the block's own tables)
+         ("sym-plant", 2), ("sym-plant", 3), ("sym-plant", 4), ("sym-plant", 0)]
 
 
 def strategy(big):
@@ -52,6 +55,11 @@ def build_input(exe, case):
     parts = []
     nstreams = case["nstreams"] if case["size"] <= 3000 else min(case["nstreams"], 2)
     for i in range(nstreams):
+        if kind == "sym-plant":
+            tape = random.Random(case["seed"] * 131 + i).randbytes(600 + case["size"] // 100)
+            z, _, ginfo = bzk.gen_sym(tape, max_block=min(case["size"] * 4, 60000), sym_blocks=1 + i % 2, plant=arg)
+            parts.append(z)
+            continue
         if kind == "magic-alphabet":
             d = corpus.magic_plain(case["size"], case["seed"] + i, runs=bool(i % 2))
         else:
